@@ -1,0 +1,33 @@
+//go:build verif
+
+// Contracts for package locking (compiled only with -tags=verif; checked by /verif/bin/govc). Property C10.
+// The model (ghost state, environment step, file-system externs) is in /verif/specs/70_locking.spec.
+package locking
+
+// The liveness probe is accurate at the moment it runs (signal 0); PIDs are not reused (assumption, see DESIGN).
+//@ func processRunning(pid) (r)
+//@   trusted
+//@   pure
+//@   ensures [probe] r <==> has(alive, pid)
+
+// Guarantee side of the protocol: a step of this process removes the lock file only if it is its own or its creator is
+// dead, and leaves the content empty or equal to the creator's PID. Lock returning nil means this process holds the lock.
+//@ func (*WorkspaceLocker).Lock(wl, ctx) (err)
+//@   requires [model] wl.lockFilePath == lockPath && has(fsIsDir, dirOf(lockPath)) && has(alive, me) && me > 0
+//@   requires [protocol_content] has(fsIsFile, lockPath) ==> lockCreator > 0 && (select(fsData, lockPath) == "" || select(fsData, lockPath) == itoa(lockCreator))
+//@   ensures [holds_lock] err == nil ==> has(fsIsFile, lockPath) && lockCreator == me && select(fsData, lockPath) == itoa(me)
+//@   before_call Remove#1 [removes_only_own_or_dead_owner] !has(fsIsFile, lockPath) || !has(alive, lockCreator) || lockCreator == me
+//@   before_call Remove#2 [removes_only_dead_owner_unreadable] !has(fsIsFile, lockPath) || !has(alive, lockCreator)
+//@   before_call Remove#3 [removes_only_dead_owner_unparsable] !has(fsIsFile, lockPath) || !has(alive, lockCreator)
+//@   before_call Remove#4 [removes_only_dead_owner_stale_pid] !has(fsIsFile, lockPath) || !has(alive, lockCreator)
+//@   before_call Close#1 [content_is_pid_or_empty] has(fsIsFile, lockPath) ==> select(fsData, lockPath) == "" || select(fsData, lockPath) == itoa(lockCreator)
+//@ loop #1
+//@   invariant [model] wl.lockFilePath == lockPath && has(fsIsDir, dirOf(lockPath)) && has(alive, me) && me > 0
+//@   invariant [protocol_content] has(fsIsFile, lockPath) ==> lockCreator > 0 && (select(fsData, lockPath) == "" || select(fsData, lockPath) == itoa(lockCreator))
+//@   invariant [my_pid] stringOf(arr(pidStr), len(pidStr)) == itoa(me)
+
+//@ func (*WorkspaceLocker).Unlock(wl) (err)
+//@   requires [model] wl.lockFilePath == lockPath && has(alive, me)
+//@   requires [holder] has(fsIsFile, lockPath) && lockCreator == me
+//@   before_call Remove#1 [removes_own_lock] !has(fsIsFile, lockPath) || !has(alive, lockCreator) || lockCreator == me
+//@   ensures [released] err == nil ==> !has(fsIsFile, lockPath)
